@@ -30,7 +30,8 @@ PROVED for all histories: every announced address resolves back to that feature 
 pairwise distinct inside the domain (`c07_addresses_unique`), over any history the partial notifications each peer
 received are exactly one per AddEntity / RemoveEntity performed while it was subscribed, in order, with the entity's
 features / without (`c07_notifications_history`; per step `c07_entity_added_notification`,
-`c07_entity_removed_notification`, `c07_notifications_only_to_subscribers`), feature numbers fresh
+`c07_entity_removed_notification`, `c07_notifications_only_to_subscribers`), also when other peers' connections fail
+(`c07_notify_independent_of_other_failures`), feature numbers fresh
 (`c07_ids_fresh_tree`, `c07_fresh_number`), one feature per type and role sequentially
 (`c07_one_feature_per_type_role_sequential`, `c07_get_or_add_idempotent`).
 PROVED for every interleaving of any number of calls: numbers never duplicated, both members (`c07_ids_fresh`); for the
@@ -277,6 +278,34 @@ def exNotif : List Op :=
 example : recvNotes 0 init exNotif =
       [.notify 0 true 1 1 [⟨1, 0, 1, 2, []⟩], .notify 0 false 1 1 [], .notify 0 false 2 2 []] ∧
     expCount 0 false exNotif = 3 ∧ recvNotes 1 init exNotif = [] := by decide
+
+/-- Clause 2 under FAILING peers (`notify_independent_of_other_failures`): when the connections of some peers cannot
+    be written to (their sends return an error), what every healthy peer receives from any step — partial
+    notifications, use-case notifications, replies — is exactly what it receives when nobody fails: the set of healthy
+    subscribers notified does not depend on the failure flags of the others, wherever the failing peers stand in the
+    subscription order; a failing peer receives nothing; and the state does not depend on failures at all (`delivered`
+    only filters the observations). With the two history theorems: each healthy subscriber still gets exactly one
+    notification per AddEntity / RemoveEntity performed while it was subscribed. -/
+theorem c07_notify_independent_of_other_failures (failing : List Nat) (s : St) (o : Op) (p : Nat) :
+    (p ∉ failing → (delivered failing (step s o).2).filter (toPeer p) = (step s o).2.filter (toPeer p)) ∧
+    (p ∉ failing → (delivered failing (step s o).2).filter (discTo p) = (step s o).2.filter (discTo p)) ∧
+    (p ∈ failing → (delivered failing (step s o).2).filter (toPeer p) = []) := by
+  refine ⟨fun hp => delivered_to_healthy failing p hp _, ?_, fun hp => delivered_to_failing failing p hp _⟩
+  intro hp
+  have h := delivered_to_healthy failing p hp (step s o).2
+  have e : ∀ l : List Obs, l.filter (discTo p) = (l.filter (toPeer p)).filter (discTo p) := by
+    intro l
+    rw [List.filter_filter]
+    apply List.filter_congr
+    intro x _
+    cases hx : discTo p x
+    · simp
+    · simp [discTo_toPeer p x hx]
+  rw [e (delivered failing (step s o).2), e (step s o).2, h]
+
+/-- non-vacuity: subscribers 1 (failing), 0 and 2 in that order; entity 1 is added — 0 and 2 are notified -/
+example : (delivered [1] (step (run [.sub 1, .sub 0, .sub 2, .renew 1 1]) (.attach 1)).2) =
+    [.notify 0 true 1 1 [], .notify 2 true 1 1 []] := by decide
 
 /-! ## Clause 3: feature numbers are never reused or duplicated; one feature per type and role -/
 
